@@ -55,9 +55,36 @@ func c20Huge(c *hx.Ctx, r *hx.RNG) {
 	}
 }
 
+// c20HugeZeros: a slice whose more than 2^31/19 most significant words are zero (the one non-zero word is the lowest:
+// 0.9 GB of untouched zero pages) with an exponent far beyond the range. Stripping the zero words lowers the exponent
+// by more than 2^31 digits - not enough to bring 2^40 back into the range: the result is +Inf, Above.
+func c20HugeZeros(c *hx.Ctx, r *hx.RNG) {
+	n := (1<<31)/19 + r.Range(100000, 700000)
+	e := int64(1)<<40 + int64(r.Range(0, 1000))
+	mode := r.Mode()
+	what := fmt.Sprintf("SetBitsExp(%d words, all zero but the lowest; exponent %d) prec=20 mode=%s", n, e, oracle.ModeNames[mode])
+	c.Note(what)
+	w := make([]decimal.Word, n)
+	w[0] = decimal.Word(7 + r.Intn(1000))
+	z := newRecv(20, mode)
+	pi := hx.Try(func() { z.SetBitsExp(w, e) })
+	c.Eval(hx.HashStr(what), true, "SetBitsExp/more-than-2^31-leading-zero-digits")
+	if pi != nil {
+		c.Violate("panic", fmt.Sprintf("%s: %s panic %q at %s", what, pi.Class, pi.Text, pi.Stack), "")
+		return
+	}
+	if !z.IsInf() || z.Signbit() || z.Acc() != decimal.Above {
+		c.Violate("wrong-value", fmt.Sprintf("%s: stored %s, want +Inf (Above): the value is about 10^(%d - 19 x %d)", what, hx.RawOf(z), e, n-1), "")
+	}
+}
+
 func c20Case(c *hx.Ctx, r *hx.RNG, idx int64) {
 	if idx%2500000 == 9 {
 		c20Huge(c, r)
+		return
+	}
+	if idx%2500000 == 25 { // (same shard as the case above: one after the other)
+		c20HugeZeros(c, r)
 		return
 	}
 	switch k := r.Intn(100); {
